@@ -51,6 +51,29 @@ void ep_out(const ep_t p) {
 	if (p->coord == BASIC && fp_cmp_dig(p->z, 1) != RLC_EQ) fprintf(OUT, " BASIC-WITH-Z!=1");
 }
 
+
+/* ep_sel <id> : call ep_param_set with an arbitrary identifier; print modulus, generator and order before and after and
+ * whether an error was reported */
+static void ep_sel_state(void) {
+	ep_t g; bn_t n; ep_null(g); ep_new(g); bn_null(n); bn_new(n);
+	ep_curve_get_gen(g); ep_curve_get_ord(n);
+	raw_print(fp_prime_get(), RLC_FP_DIGS, 0);
+	fputc(',', OUT); fp_print_std(g->x); fputc(',', OUT); fp_print_std(g->y); fputc(',', OUT);
+	raw_print(n->dp, n->used, 0);
+	ep_free(g); bn_free(n);
+}
+static void op_ep_sel(int argc, char **argv) {
+	if (argc < 2) { fprintf(OUT, "bad-args\n"); return; }
+	int id = parse_int(argv[1]), caught = 0;
+	fprintf(OUT, "id0=%d s0=", ep_param_get());
+	ep_sel_state();
+	RLC_TRY { ep_param_set(id); } RLC_CATCH_ANY { caught = 1; }
+	int e = take_err();
+	fprintf(OUT, " res=%s id1=%d s1=", (e || caught) ? "err" : "ok", ep_param_get());
+	ep_sel_state();
+	fputc('\n', OUT);
+}
+
 /* ep_param <id> */
 static void op_ep_param(int argc, char **argv) {
 	if (argc < 2) { fprintf(OUT, "bad-args\n"); return; }
@@ -266,7 +289,7 @@ static void op_ep_read_bin(int argc, char **argv) {
 #include "ops_ep2.inc"
 
 const op_t ops_ep[] = {
-	{"ep_param", op_ep_param}, {"ep2", op_ep2}, {"ep1", op_ep1}, {"epm", op_epm}, {"eps", op_eps}, {"ep_glv", op_ep_glv}, {"epl", op_epl}, {"epd", op_epl}, {"epla", op_epl}, {"epda", op_epl},
+	{"ep_param", op_ep_param}, {"ep_sel", op_ep_sel}, {"ep2", op_ep2}, {"ep1", op_ep1}, {"epm", op_epm}, {"eps", op_eps}, {"ep_glv", op_ep_glv}, {"epl", op_epl}, {"epd", op_epl}, {"epla", op_epl}, {"epda", op_epl},
 	{"ep_write_bin", op_ep_write_bin}, {"ep_read_bin", op_ep_read_bin},
 	EP2_OPS
 	{NULL, NULL}
